@@ -37,17 +37,17 @@ const (
 type adversary struct {
 	plan         int
 	minRound     int
-	follow       map[string]bool   // payload hashes (block hash) the adversary pushes through all phases
-	sent         map[string]bool   // crafted leader messages already sent (phase|payload|view)
-	commitTarget map[uint64]int    // height -> the only correct replica allowed to receive COMMIT messages
-	withheld     []*voteAgg        // full PROPOSE_VOTE certificates whose PRECOMMIT was withheld
-	w      *world
-	votes  map[string]*voteAgg // by hash of the vote sign bytes
-	order  []string            // insertion order (deterministic iteration)
-	blocks map[string]*knownBlock
-	qcs    []*lib.QuorumCertificate // justification certificates seen in leader messages
-	raw    [][]byte
-	rawTo  []int
+	follow       map[string]bool // payload hashes (block hash) the adversary pushes through all phases
+	sent         map[string]bool // crafted leader messages already sent (phase|payload|view)
+	commitTarget map[uint64]int  // height -> the only correct replica allowed to receive COMMIT messages
+	withheld     []*voteAgg      // full PROPOSE_VOTE certificates whose PRECOMMIT was withheld
+	w            *world
+	votes        map[string]*voteAgg // by hash of the vote sign bytes
+	order        []string            // insertion order (deterministic iteration)
+	blocks       map[string]*knownBlock
+	qcs          []*lib.QuorumCertificate // justification certificates seen in leader messages
+	raw          [][]byte
+	rawTo        []int
 }
 
 func newAdversary(w *world) *adversary {
